@@ -475,7 +475,7 @@ def lifecycle_check(prop, tier):
                 run.violation("C07 shared line on %s threads: a lifetime's verdict saw another lifetime's calls" % r["threads"],
                               {"round": r, "events": [e for e in evs if e["ev"] in ("Helper", "ChildExit")]})
     if prop in ("C17", "C12", "C02"):
-        platform_part(run, prop, tier)
+        run.sim_part("platform variants", lambda: platform_part(run, prop, tier))
     if prop in ("C02", "C03", "C12"):
         placement_part(run, prop, tier)
     if prop == "C12":
@@ -753,8 +753,11 @@ def placement_check(prop, tier):
                 return "C01 x64-sim harness-died"
             d = int.from_bytes(bytes(fe["tramp"]), "little") - int.from_bytes(bytes(fe["src"]), "little")
             return "C01 x64-sim outcome=%s entry_disp=%+#x fake=%#x" % (fe["outcome"], d, int.from_bytes(bytes(fe["fake"]), "little"))
-        g, nev, unk = sim_validate(run, "C01", cases, 200, key)
-        run.extra["x64_sim_cases"] = {"cases": len(cases), "validated": nev, "unknown": unk}
+
+        def x64sim():
+            g, nev, unk = sim_validate(run, "C01", cases, 200, key)
+            run.extra["x64_sim_cases"] = {"cases": len(cases), "validated": nev, "unknown": unk}
+        run.sim_part("x86-64 simulated addresses", x64sim)
     return run.finish()
 
 
@@ -877,23 +880,26 @@ def alloc_check(prop, tier):
     for d in ds:
         cases.append({"isa": "a64-linux", "kind": "jump", "src": src0, "tramp": src0 + d, "fake": 0x1234567890, "v": 0, "d": d})
     scen2 = [{"id": 1, "cases": cases}]
-    g2, o2, _ = vlib.run_harness("sim", scen2, "sim_C11", timeout=600)
-    evs = g2.get(1, [])
-    per = []
-    for c, e in zip(cases, evs):
-        e = dict(e)
-        e["alloc_accepts"] = (abs(c["d"]) < R - 4096) or (c["d"] in accepted_d)
-        per.append((len(per) + 1, [e]))
-    cfgs = tlc.make_cfg("Trace_Sim", {"Props": '{"C11", "ALL"}'}, "Trace_Sim_C11")
-    tv2 = tlc.validate_traces("Trace_Sim", cfgs, per, WORK, "trace_sim_C11", timeout=600)
-    run.traces += len(tv2["accepted"])
-    run.states += tv2["states"]
-    run.transitions += tv2["transitions"]
-    for sid, ev1 in per:
-        if sid not in tv2["accepted"]:
-            c = cases[sid - 1]
-            run.violation("C11 isa=arm64-linux d=%+#x accepted-by-allocator refused-by-encoder leaked=1" % c["d"],
-                          {"case": c, "event": {k: ev1[0][k] for k in ("outcome", "msg", "alloc_accepts", "entry")}})
+
+    def arm64_join():
+        g2, o2, _ = vlib.run_harness("sim", scen2, "sim_C11", timeout=600)
+        evs = g2.get(1, [])
+        per = []
+        for c, e in zip(cases, evs):
+            e = dict(e)
+            e["alloc_accepts"] = (abs(c["d"]) < R - 4096) or (c["d"] in accepted_d)
+            per.append((len(per) + 1, [e]))
+        cfgs = tlc.make_cfg("Trace_Sim", {"Props": '{"C11", "ALL"}'}, "Trace_Sim_C11")
+        tv2 = tlc.validate_traces("Trace_Sim", cfgs, per, WORK, "trace_sim_C11", timeout=600)
+        run.traces += len(tv2["accepted"])
+        run.states += tv2["states"]
+        run.transitions += tv2["transitions"]
+        for sid, ev1 in per:
+            if sid not in tv2["accepted"]:
+                c = cases[sid - 1]
+                run.violation("C11 isa=arm64-linux d=%+#x accepted-by-allocator refused-by-encoder leaked=1" % c["d"],
+                              {"case": c, "event": {k: ev1[0][k] for k in ("outcome", "msg", "alloc_accepts", "entry")}})
+    run.sim_part("arm64 encoder join", arm64_join)
     # the native runs once more, step by step against MC_Alloc's Try / Exhausted (events renamed, nothing inferred)
     per = []
     for sc in live:
@@ -934,7 +940,7 @@ def alloc_check(prop, tier):
                 sc.get("free_deltas"), sc.get("occupied"), sc.get("elsewhere_delta"), sc["off"], sc["func_page"]),
                 {"scenario": sc, "trace_rejected_at": reached, "first_unmatched_event": pero[sid][reached] if reached < len(pero[sid]) else None,
                  "events": pero[sid][max(0, reached - 6):reached + 2]})
-    windows_alloc_part(run, tier)
+    run.sim_part("Windows allocator", lambda: windows_alloc_part(run, tier))
     return run.finish()
 
 
@@ -1914,7 +1920,7 @@ def cc_check(prop, tier):
 
     def key(fe):
         return "C13 simulated isa=%s" % (fe["isa"] if fe else "?")
-    sim_validate(run, "C13", cases, 300, key)
+    run.sim_part("simulated arm64 / arm emitters", lambda: sim_validate(run, "C13", cases, 300, key))
     # (c) + (d)
     regs_part(run, "C13", tier)
     return run.finish()
